@@ -151,6 +151,9 @@ def run_tlc(module, cfg_text, *, workers=None, timeout=1200, env=None, extra=(),
     m2 = re.search(r"Error: Action property (\w+) is violated", out)
     if m2:
         viol = m2.group(1)
+    m3 = re.search(r"Error: Temporal property (\w+) was violated", out)
+    if m3:
+        viol = viol or m3.group(1)
     if re.search(r"Error: Temporal properties were violated", out):
         viol = viol or "temporal"
     r["violated"] = viol
